@@ -23,7 +23,13 @@ structure with the elements named by its own exclusion list removed.  Over every
     earlier signature, the same again, other signatures, revoked before/after not revoked, logging levels varied):
     every call's verdict and the digests GPG is shown equal those of the same call made as the first call of a
     freshly forked process at the default logging level; GPG is shown the digest of THIS play on every call that
-    reaches the signature check; module-level containers of the verifier package do not grow.
+    reaches the signature check; module-level containers of the verifier package do not grow
+  - the TEXT entry point (load_playbook_yaml, as __main__ uses it): an edit of the YAML text that changes what the text
+    denotes outside the excluded elements (node graph composed by a separate parser instance, built with "last value of a
+    repeated key wins", merge keys expanded, unknown tags kept) must make loading / verification fail or change the
+    digest shown to GPG; an edit that does not change the denoted play must not change the digest
+  - plays that differ only in one code point (lone surrogates, '?', U+FFFD, ...) are refused or get different digests,
+    and the bytes hashed are the strict UTF-8 encoding of the serialisation text.
 """
 import base64
 import binascii
@@ -42,6 +48,7 @@ from harness.common import VERIF, enc, dec, run_driver
 
 from insights.client.apps.ansible import playbook_verifier as pv
 from insights.client.apps.ansible.playbook_verifier.serializer import PlaybookSerializer
+from insights.client.apps.ansible.playbook_verifier.contrib.ruamel_yaml.ruamel.yaml import YAML as _RYAML, nodes as _rnodes
 from insights.client.apps.ansible.playbook_verifier.contrib.ruamel_yaml.ruamel.yaml.comments import (
     CommentedMap, CommentedSeq)
 
@@ -393,9 +400,20 @@ def impl_verify(obj, doc_bytes):
     return "ok" if r is obj else "returned-other-object"
 
 
+def _dumper():
+    """a YAML instance of the harness's own, set up like the verifier's (the verifier's instance keeps state from the
+    texts it loaded, e.g. a %YAML directive, which must not leak into the texts rendered here)"""
+    y = _RYAML(typ="rt")
+    y.indent(mapping=2, sequence=4, offset=2)
+    y.default_flow_style = False
+    y.preserve_quotes = True
+    y.width = 200
+    return y
+
+
 def dump_yaml(obj):
     buf = io.StringIO()
-    pv.yaml.dump(obj, buf)
+    _dumper().dump(obj, buf)
     return buf.getvalue()
 
 
@@ -1374,6 +1392,478 @@ def run_histories(chk, ref, quick):
     chk.compare("histories: every call in one process = the stateless model", cases, impl, model)
 
 
+# ------------------------------------------------------------------ the TEXT entry point (load_playbook_yaml) and unencodable strings
+
+STD = "tag:yaml.org,2002:"
+FINDING_MERGE = "play-level-merge-key"
+FINDING_COLLTAG = "tag-not-in-digest"
+NONSTR_PLAIN = re.compile(r"^([-+]?(0x[0-9a-fA-F_]+|0o[0-7_]+|0b[01_]+|[0-9][0-9_]*)|true|True|TRUE|false|False|FALSE|~|null|Null|NULL|)$")
+
+
+def compose_docs(text):
+    """node graphs of all documents of a YAML text (a parser instance of its own, not the verifier's)"""
+    y = _RYAML(typ="safe", pure=True)
+    constructor, parser = y.get_constructor_parser(text)
+    out = []
+    try:
+        while constructor.composer.check_node():
+            out.append(constructor.composer.get_node())
+    finally:
+        parser.dispose()
+    return out
+
+
+def _build(node, flags, stack):
+    """what a consumer that keeps the LAST value of a repeated key and expands merge keys gets; tags it would not
+    know are kept as ('tag', tag, value) so that adding one changes the denotation"""
+    if id(node) in stack:
+        return ("recursive",)
+    if isinstance(node, _rnodes.ScalarNode):
+        t, v = node.tag, node.value
+        if t == STD + "str":
+            return v
+        if t == STD + "null":
+            return None
+        if t == STD + "bool" and v.lower() in ("true", "false"):
+            return v.lower() == "true"
+        if t == STD + "int":
+            w = v.replace("_", "")
+            sign = -1 if w.startswith("-") else 1
+            w = w.lstrip("+-")
+            try:
+                if w.lower().startswith("0x"):
+                    return sign * int(w[2:], 16)
+                if w.lower().startswith("0o"):
+                    return sign * int(w[2:], 8)
+                if w.lower().startswith("0b"):
+                    return sign * int(w[2:], 2)
+                return sign * int(w, 10)
+            except ValueError:
+                pass
+        flags["nonplain-type"] = True
+        if t not in (STD + "str", STD + "int", STD + "bool", STD + "null", STD + "float", STD + "binary", STD + "timestamp") \
+                and NONSTR_PLAIN.match(v) and not node.style:
+            flags["tag-on-nonstring-scalar"] = True      # untagged, the same characters are an integer / boolean / null
+        return ("tag", t, v)
+    stack = stack | {id(node)}
+    if isinstance(node, _rnodes.SequenceNode):
+        items = [_build(x, flags, stack) for x in node.value]
+        if node.tag != STD + "seq":
+            flags["collection-tag"] = True
+            return ("tag", node.tag, tuple(canon(i) for i in items))
+        return items
+    own, merged = [], []
+    for kn, vn in node.value:
+        if kn.tag == STD + "merge":
+            srcs = vn.value if isinstance(vn, _rnodes.SequenceNode) else [vn]
+            for src in srcs:
+                if not isinstance(src, _rnodes.MappingNode):
+                    flags["bad-merge"] = True
+                    continue
+                m = _build(src, flags, stack)
+                if isinstance(m, dict):
+                    merged.append(m)
+            continue
+        k = _build(kn, flags, stack)
+        if isinstance(k, (dict, list)):
+            k = ("complex-key", repr(canon(k)))
+        own.append((k, _build(vn, flags, stack)))
+    out = {}
+    for k, v in own:            # a repeated key keeps its LAST value
+        out[k] = v
+    for m in merged:            # merged keys never override explicit ones, earlier sources win
+        for k, v in m.items():
+            if k not in out:
+                out[k] = v
+    if node.tag != STD + "map":
+        flags["collection-tag"] = True
+        return ("tag", node.tag, canon(out))
+    return out
+
+
+def denote(text):
+    """('ok', [plays], flags) or ('unloadable', why, {})"""
+    flags = {}
+    try:
+        docs = compose_docs(text)
+    except Exception as e:
+        return ("unloadable", type(e).__name__, flags)
+    if len(docs) != 1:
+        return ("unloadable", "%d documents" % len(docs), flags)
+    if isinstance(docs[0], _rnodes.SequenceNode):
+        for item in docs[0].value:
+            if isinstance(item, _rnodes.MappingNode) and any(kn.tag == STD + "merge" for kn, _ in item.value):
+                flags["play-level-merge"] = True
+    try:
+        top = _build(docs[0], flags, frozenset())
+    except RecursionError:
+        return ("unloadable", "recursion", flags)
+    if not isinstance(top, list):
+        return ("unloadable", "not a list of plays", flags)
+    return ("ok", top, flags)
+
+
+def denoted_cores(d):
+    if d[0] != "ok":
+        return ("unloadable",)
+    return tuple(spec_core(p) if isinstance(p, dict) else ("not-a-play", canon(p)) for p in d[1])
+
+
+def text_outcome(text):
+    """what __main__ does with a playbook text, play by play: ('refused', where) or ('digests', (digest shown to GPG, ...))"""
+    try:
+        plays = pv.load_playbook_yaml(text)
+    except pv.PlaybookVerificationError:
+        return ("refused", "load")
+    except Exception:
+        return ("refused", "load-crash")
+    if not isinstance(plays, list):
+        return ("refused", "not a list")
+    ds = []
+    for play in plays:
+        if not isinstance(play, dict):
+            return ("refused", "not a play")
+        a, d = impl_vplay(play)
+        if a != "ok":
+            return ("refused", a)
+        ds.append(binascii.hexlify(d).decode())
+    return ("digests", tuple(ds))
+
+
+SIMPLE_LINE = re.compile(r"^(?P<ind>\s*(?:- )?)(?P<key>[A-Za-z_]\w*): (?P<val>[^\s#&*!|>'\"\[\]{}%@`,][^#]*?)$")
+BLOCK_LINE = re.compile(r"^(?P<ind>\s*(?:- )?)(?P<key>[A-Za-z_]\w*):$")
+
+
+def text_edit(rng, text):
+    """(kind, edited text) — an edit of the TEXT that does not go through a Python dict"""
+    lines = text.split("\n")
+    if lines and lines[-1] == "":
+        lines.pop()
+    m0 = re.match(r"^(\s*)- ", lines[0]) if lines else None
+    if not m0:
+        return None
+    pind = " " * (len(m0.group(1)) + 2)           # indentation of the play's own keys
+    simple = [(i, SIMPLE_LINE.match(l)) for i, l in enumerate(lines)]
+    simple = [(i, m) for i, m in simple if m]
+    blocks = [(i, BLOCK_LINE.match(l)) for i, l in enumerate(lines)]
+    blocks = [(i, m) for i, m in blocks if m]
+
+    def ind_of(m):
+        return " " * len(m.group("ind"))
+
+    def join(ls):
+        return "\n".join(ls) + "\n"
+    n = rng.randrange(10 ** 4)
+    kind = rng.choice(["dup-after", "dup-after", "dup-before", "dup-play-key", "dup-play-key", "merge-inline", "merge-shadowed",
+                       "merge-own-subtree", "merge-own-subtree", "merge-own-signed", "merge-earlier", "alias-value", "second-doc", "second-doc-first",
+                       "tag-scalar", "tag-scalar", "tag-collection", "style", "style", "style-int", "comment", "comment", "whitespace", "doc-markers"])
+    if kind in ("dup-after", "dup-before", "merge-inline", "merge-shadowed", "tag-scalar", "style", "comment", "merge-earlier", "alias-value") and not simple:
+        return None
+    if kind == "dup-after":
+        i, m = rng.choice(simple)
+        return kind, join(lines[:i + 1] + ["%s%s: evil-%d" % (ind_of(m), m.group("key"), n)] + lines[i + 1:])
+    if kind == "dup-before":
+        c = [(i, m) for i, m in simple if "- " not in m.group("ind")]
+        if not c:
+            return None
+        i, m = rng.choice(c)
+        return kind, join(lines[:i] + ["%s%s: evil-%d" % (ind_of(m), m.group("key"), n)] + lines[i:])
+    if kind == "dup-play-key":
+        k = rng.choice(["tasks", "tasks", "name", "vars", "hosts", "become"])
+        if k == "tasks":
+            extra = [pind + "tasks:", pind + "  - name: evil", pind + "    command: evil-%d" % n]
+        elif k == "vars":
+            extra = [pind + "vars:", pind + "  insights_signature_exclude: /vars", pind + "  insights_signature: UExB"]
+        else:
+            extra = [pind + "%s: evil-%d" % (k, n)]
+        return kind + ":" + k, join(lines + extra)
+    if kind == "merge-inline":
+        i, m = rng.choice(simple)
+        return kind, join(lines[:i + 1] + ["%s<<: {evil_%d: true}" % (ind_of(m), n)] + lines[i + 1:])
+    if kind == "merge-shadowed":      # every merged key is already set explicitly: the play is the same
+        i, m = rng.choice(simple)
+        return kind, join(lines[:i + 1] + ["%s<<: {%s: evil}" % (ind_of(m), m.group("key"))] + lines[i + 1:])
+    if kind == "merge-own-subtree":   # the anchor sits in an excluded element of the play it is merged into
+        c = [(i, m) for i, m in simple if m.group("key") == "hosts" and m.group("ind") in (pind, lines[0][:len(pind) - 2] + "- ")]
+        if not c:
+            return None
+        i, m = c[0]
+        new = "%shosts: &anc {ignore_errors: true, evil_%d: 1}" % (m.group("ind"), n)
+        return kind, join(lines[:i] + [new] + lines[i + 1:] + [pind + "<<: *anc"])
+    if kind == "merge-own-signed":    # the anchor is put on a signed mapping of the play, which is then merged into the play
+        c = [(i, m) for i, m in blocks if m.group("ind") == pind and i + 1 < len(lines) and not lines[i + 1].lstrip().startswith("- ")
+             and lines[i + 1].startswith(pind + "  ")]
+        if not c:
+            return None
+        i, m = rng.choice(c)
+        return kind, join(lines[:i] + [lines[i] + " &anc"] + lines[i + 1:] + [pind + "<<: *anc"])
+    if kind == "merge-earlier":       # anchor in an earlier element, merged into a later mapping
+        c = [(i, m) for i, m in simple if m.group("key") == "hosts" and m.group("ind") in (pind, lines[0][:len(pind) - 2] + "- ")]
+        if not c:
+            return None
+        i, m = c[0]
+        later = [(j, mm) for j, mm in simple if j > i and len(mm.group("ind")) > len(pind)]
+        if not later:
+            return None
+        j, mm = rng.choice(later)
+        ls = list(lines)
+        ls[i] = "%shosts: &anc {when_%d: evil}" % (m.group("ind"), n)
+        return kind, join(ls[:j + 1] + [ind_of(mm) + "<<: *anc"] + ls[j + 1:])
+    if kind == "alias-value":
+        c = [(i, m) for i, m in simple if m.group("key") == "hosts" and m.group("ind") in (pind, lines[0][:len(pind) - 2] + "- ")]
+        if not c:
+            return None
+        i, m = c[0]
+        later = [(j, mm) for j, mm in simple if j > i]
+        if not later:
+            return None
+        j, mm = rng.choice(later)
+        ls = list(lines)
+        ls[i] = "%shosts: &anc evil-%d" % (m.group("ind"), n)
+        ls[j] = "%s%s: *anc" % (mm.group("ind"), mm.group("key"))
+        return kind, join(ls)
+    if kind == "second-doc":
+        return kind, join(lines + rng.choice([["---", "- name: other", "  hosts: all"], ["...", "---", "- name: other"], ["---", "evil"]]))
+    if kind == "second-doc-first":
+        return kind, join(["- name: first", "  hosts: all", "---"] + lines)
+    if kind == "tag-scalar":
+        i, m = rng.choice(simple)
+        tag = rng.choice(["!unsafe", "!unsafe", "!!python/object/apply:os.system", "!!python/name:os.system", "!!str", "!vault", "!!binary", "!custom"])
+        return kind + ":" + tag, join(lines[:i] + ["%s%s: %s %s" % (m.group("ind"), m.group("key"), tag, m.group("val"))] + lines[i + 1:])
+    if kind == "tag-collection":
+        if not blocks:
+            return None
+        i, m = rng.choice(blocks)
+        tag = rng.choice(["!unsafe", "!!python/object/apply:os.system", "!custom"])
+        return kind + ":" + tag, join(lines[:i] + [lines[i] + " " + tag] + lines[i + 1:])
+    if kind == "style":
+        i, m = rng.choice(simple)
+        v = m.group("val").rstrip()
+        how = rng.choice(["dq", "sq", "True", "tilde", "block", "folded"])
+        if how == "dq" and '"' not in v and "\\" not in v:
+            v2 = '"%s"' % v
+        elif how == "sq" and "'" not in v:
+            v2 = "'%s'" % v
+        elif how == "True" and v in ("true", "false"):
+            v2 = rng.choice([v.capitalize(), v.upper()])
+        elif how == "tilde" and v == "null":
+            v2 = rng.choice(["~", "Null", "NULL"])
+        elif how == "block":
+            v2 = "|-\n%s  %s" % (ind_of(m), v)
+        elif how == "folded":
+            v2 = ">-\n%s  %s" % (ind_of(m), v)
+        else:
+            return None
+        return kind + ":" + how, join(lines[:i] + ["%s%s: %s" % (m.group("ind"), m.group("key"), v2)] + lines[i + 1:])
+    if kind == "style-int":
+        c = [(i, m) for i, m in simple if re.match(r"^-?\d+$", m.group("val").rstrip())]
+        if not c:
+            return None
+        i, m = rng.choice(c)
+        x = int(m.group("val"))
+        v2 = rng.choice([hex(x) if x >= 0 else None, oct(x) if x >= 0 else None, "+%d" % x if x >= 0 else None,
+                         "{:_}".format(x) if abs(x) >= 1000 else None, '!!int "%d"' % x])
+        if v2 is None:
+            return None
+        return kind, join(lines[:i] + ["%s%s: %s" % (m.group("ind"), m.group("key"), v2)] + lines[i + 1:])
+    if kind == "comment":
+        i, m = rng.choice(simple)
+        how = rng.randrange(3)
+        if how == 0:
+            return kind, join(lines[:i] + [lines[i] + "  # evil: true"] + lines[i + 1:])
+        if how == 1:
+            return kind, join(lines[:i] + [" " * rng.randrange(8) + "# tasks: [evil]"] + lines[i:])
+        return kind, join(["# a comment", ""] + lines + ["", "# the end"])
+    if kind == "whitespace":
+        i = rng.randrange(len(lines))
+        how = rng.randrange(3)
+        if how == 0:
+            return kind, join(lines[:i] + ["", "   "] + lines[i:])
+        if how == 1:
+            return kind, join([l + ("  " if SIMPLE_LINE.match(l) else "") for l in lines])
+        return kind, "\r\n".join(lines) + "\r\n"
+    if kind == "doc-markers":
+        return kind, join(rng.choice([["---"], ["%YAML 1.2", "---"], []]) + lines + rng.choice([["..."], []]))
+    return None
+
+
+def classify_text_finding(d1):
+    """input predicate of the two known findings on YAML text"""
+    fl = d1[2] if len(d1) > 2 else {}
+    if fl.get("play-level-merge"):
+        return FINDING_MERGE
+    if fl.get("collection-tag") or fl.get("tag-on-nonstring-scalar"):
+        return FINDING_COLLTAG
+    return None
+
+
+def check_text_pair(chk, text0, text1, kind, o0=None, d0=None):
+    """the oracle on one text edit; -> (outcome of the edited text, its denotation)"""
+    o0 = o0 or text_outcome(text0)
+    d0 = d0 or denote(text0)
+    o1, d1 = text_outcome(text1), denote(text1)
+    same = d1[0] == "ok" and denoted_cores(d1) == denoted_cores(d0)
+    case = {"op": "text-edit", "edit": kind, "text0": text0, "text1": text1}
+    if o0[0] == "digests" and o1[0] == "digests":
+        if same and o1[1] != o0[1]:
+            chk.failure("text edit (%s) that leaves the denoted play unchanged outside the excluded elements changes the digest shown to GPG" % kind, case)
+        if not same and o1[1] == o0[1]:
+            chk.failure("text edit (%s) changes what the text denotes outside the excluded elements (last value of a repeated key, merges expanded, "
+                        "tags kept), but the text still loads and the digest shown to GPG is unchanged" % kind, case, finding=classify_text_finding(d1))
+    return o1, d1
+
+
+SURROGATE_FORMS = ["\ud83d", "\udc00", "\ud800", "\udfff", "?", "�", "", "\U0001f600", "😀", "\\ud83d", "x"]
+
+
+def run_text_and_encoding(chk, quick):
+    rng = chk.rng
+    n_base = 70 if quick else 1500
+    n_edits = 9 if quick else 14
+    # ---- (1) text edits
+    cases, impl, lines = [], [], []
+    for _ in range(n_base):
+        p = gen_signed_play(rng)
+        if p is None:
+            continue
+        try:
+            text0 = dump_yaml([to_ruamel(p)])
+        except Exception:
+            continue
+        d0 = denote(text0)
+        if d0[0] != "ok" or len(d0[1]) != 1 or canon(d0[1][0]) != canon(p):
+            chk.count("text:base-not-round-tripping")
+            continue
+        o0 = text_outcome(text0)
+        if o0[0] != "digests":
+            chk.count("text:base-refused")
+            continue
+        chk.case(("text", canon(p)), True)
+        cases.append({"text": text0, "edit": "none"})
+        impl.append(o0[1][0])
+        lines.append("vplay\t%s\t%s" % (bad_sigs(p), wire(p)))
+        for _ in range(n_edits):
+            e = None
+            for _try in range(4):
+                e = e or text_edit(rng, text0)
+            if e is None:
+                continue
+            kind, text1 = e
+            o1, d1 = check_text_pair(chk, text0, text1, kind, o0, d0)
+            k0 = kind.split(":")[0]
+            same = d1[0] == "ok" and denoted_cores(d1) == denoted_cores(d0)
+            chk.count("text:%s/%s/%s" % (k0, "same-play" if same else "other-play" if d1[0] == "ok" else "unloadable",
+                                         "same-digest" if o1 == o0 else "refused" if o1[0] == "refused" else "other-digest"))
+            # tie: when the text loads and denotes one modelled play, the digest is SHA-256 of the model's serialisation of THAT play
+            if o1[0] == "digests" and d1[0] == "ok" and len(d1[1]) == 1 and not d1[2] and isinstance(d1[1][0], dict):
+                try:
+                    w = wire(d1[1][0])
+                    from_json(to_json(d1[1][0]))
+                except Exception:
+                    continue
+                cases.append({"text": text1, "edit": kind})
+                impl.append(o1[1][0])
+                lines.append("vplay\t%s\t%s" % (bad_sigs(d1[1][0]), w))
+    out = run_driver("C18", lines)
+    model = []
+    for a in out:
+        f = a.split("\t")
+        model.append(hashlib.sha256(dec(f[1]).encode("utf-8")).hexdigest() if f[0] == "ok" else a)
+    chk.compare("text entry point: digest of the loaded play = sha256(model serialisation of the play the text denotes)", cases, impl, model)
+
+    # ---- known findings on YAML text: witnesses against the implementation
+    base = ("- name: w\n  hosts: all\n  vars:\n    insights_signature_exclude: /hosts,/vars/insights_signature\n"
+            "    insights_signature: UExBQ0VIT0xERVI=\n  tasks:\n    - name: t\n      command: ok\n")
+    w_merge = base + "  <<: {pre_tasks: [{command: evil}]}\n"
+    w_tag = base.replace("  tasks:\n", "  tasks: !unsafe\n")
+    for fid, w in ((FINDING_MERGE, w_merge), (FINDING_COLLTAG, w_tag)):
+        o0, o1 = text_outcome(base), text_outcome(w)
+        d0, d1 = denote(base), denote(w)
+        rep = o0[0] == "digests" and o1 == o0 and denoted_cores(d1) != denoted_cores(d0) and classify_text_finding(d1) == fid
+        chk.witnesses.append({"finding": fid, "text": w, "reproduces": rep})
+        if rep:
+            chk.finding_reproduced(fid)
+
+    # ---- (2) code points UTF-8 cannot encode, in keys and values of the signed part
+    n_sur = 60 if quick else 1200
+    cases, impl, lines, want = [], [], [], []
+    for _ in range(n_sur):
+        p = gen_signed_play(rng)
+        if p is None:
+            continue
+        where = rng.choice(["value", "value", "key", "task"])
+        pre, post = rng.choice(["", "a", "é"]), rng.choice(["", "b", "'", "\\"])
+        variants = {}
+        for form in SURROGATE_FORMS:
+            q = copy.deepcopy(p)
+            s_ = pre + form + post
+            if where == "value":
+                q["marker"] = s_
+            elif where == "key":
+                q["vars"][s_ + "k"] = 1
+            else:
+                q.setdefault("tasks", [])
+                if not isinstance(q["tasks"], list):
+                    q["tasks"] = []
+                q["tasks"] = q["tasks"] + [{"name": "t", "shell": s_}]
+            variants[form] = q
+        seen = {}
+        for form, q in variants.items():
+            lone = any(0xD800 <= ord(ch) <= 0xDFFF for ch in form)
+            obj = to_ruamel(q)
+            a, d = impl_vplay(obj)
+            chk.count("encoding:%s/%s" % ("lone-surrogate" if lone else "encodable", a))
+            chk.case(("sur", where, form, canon(p)), not lone)
+            # tie of the encoding step: the bytes hashed are the strict UTF-8 of the serialisation text
+            enc_ok = "-"
+            if a == "ok":
+                try:
+                    cleaned = pv.exclude_dynamic_elements(obj)
+                    raw = pv.serialize_play(cleaned)
+                    enc_ok = "utf8" if raw.decode("utf-8") == PlaybookSerializer.serialize(cleaned) else "not-the-utf8-of-the-text"
+                except UnicodeDecodeError:
+                    enc_ok = "not-utf8"
+                except Exception:
+                    enc_ok = "?"
+                k = binascii.hexlify(d).decode()
+                if k in seen and canon(seen[k][1]) != canon(q):
+                    chk.failure("two plays that differ only in one code point (%r vs %r, in a %s of the signed part) have the same digest"
+                                % (seen[k][0], form, where), {"op": "surrogate-pair", "a": to_json(seen[k][1]), "b": to_json(q)})
+                seen.setdefault(k, (form, q))
+            cases.append({"where": where, "form": repr(form)})
+            impl.append("refused" if a != "ok" else "%s %s" % (binascii.hexlify(d).decode(), enc_ok))
+            if lone:
+                want.append("refused")       # outside the model's strings (Unicode scalar values): nothing to hash
+            else:
+                want.append(len(lines))
+                lines.append("vplay\t%s\t%s" % (bad_sigs(q), wire(q)))
+    out = run_driver("C18", lines)
+    model = []
+    for w_ in want:
+        if w_ == "refused":
+            model.append("refused")
+        else:
+            f = out[w_].split("\t")
+            model.append("%s utf8" % hashlib.sha256(dec(f[1]).encode("utf-8")).hexdigest() if f[0] == "ok" else "refused")
+    chk.compare("encoding step: lone surrogates are refused, everything else hashes the strict UTF-8 of the model's text", cases, impl, model)
+    # the same through the text entry point: JSON-style escapes in double-quoted scalars
+    for _ in range(12 if quick else 200):
+        tpl = ("- name: w\n  hosts: all\n  vars:\n    insights_signature_exclude: /hosts,/vars/insights_signature\n"
+               "    insights_signature: UExBQ0VIT0xERVI=\n  tasks:\n    - name: t\n      %s\n")
+        forms = ['"\\ud83d"', '"\\udc00"', '"?"', '"\\ufffd"', '""', '"\\ud800"']
+        key = rng.random() < 0.3
+        seen = {}
+        for f_ in forms:
+            text = tpl % (("%s: 1" % f_) if key else ("shell: %s" % f_))
+            o = text_outcome(text)
+            chk.count("encoding:text/%s" % o[0])
+            if o[0] == "digests":
+                if o[1] in seen and seen[o[1]][0] != f_:
+                    chk.failure("two playbook texts that differ only in one code point (%s vs %s) have the same digest" % (seen[o[1]][0], f_),
+                                {"op": "text-edit", "edit": "code point", "text0": seen[o[1]][1], "text1": text})
+                seen.setdefault(o[1], (f_, text))
+
+
 # ------------------------------------------------------------------ the check
 
 class Pool(object):
@@ -1440,6 +1930,10 @@ def run(chk):
                 "plus histories of 2-6 verify / verify_play / execute_verification calls in one process (genuine, tampered re-using an "
                 "earlier signature, the same again, other signatures, revoked before/after not revoked, logging levels varied per call), "
                 "each call compared with the same call as the first call of a freshly forked process; "
+                "plus YAML TEXTS rendered from plays and edited as text (repeated keys at every level, merge keys / anchors / aliases, a second "
+                "document, tags, other scalar styles, comments / white space) through load_playbook_yaml, judged against an independent "
+                "last-value-wins, merge-expanding reading of the text; plus plays that differ only in one code point among lone surrogates, "
+                "'?', U+FFFD and valid characters; "
                 "non-trivial = distinct canonical play whose exclusion succeeds (a digest exists)")
     chk.assumptions = [
         "SHA-256 is treated as injective (the theorems are about the serialised text; the harness compares hash_play with hashlib on the model's text)",
@@ -1705,6 +2199,9 @@ def _run(chk, ref):
     # ---------------- stream 6: histories of calls in one process vs. a fresh process per call
     run_histories(chk, ref, quick)
 
+    # ---------------- stream 7: the TEXT entry point (edits of the YAML text) and strings UTF-8 cannot encode
+    run_text_and_encoding(chk, quick)
+
     # ---------------- regression witnesses of the repaired defect 5a7421c (non-string list, non-mapping vars)
     for c in corpus:
         if c.get("op") == "vplay":
@@ -1730,6 +2227,27 @@ class _Collect(object):
 def replay(data):
     c = data["case"]
     op = c.get("op")
+    if op == "text-edit":
+        col = _Collect()
+        o0, o1 = text_outcome(c["text0"]), text_outcome(c["text1"])
+        d0, d1 = denote(c["text0"]), denote(c["text1"])
+        print("original text: %s; edited text (%s): %s" % (o0, c.get("edit"), o1))
+        print("the edited text denotes %s outside the excluded elements" % (
+            "the same play" if d1[0] == "ok" and denoted_cores(d1) == denoted_cores(d0) else "another play" if d1[0] == "ok" else "nothing loadable (%s)" % d1[1]))
+        if c.get("edit") == "code point":
+            bad = o0[0] == "digests" and o0 == o1 and c["text0"] != c["text1"]
+        else:
+            check_text_pair(col, c["text0"], c["text1"], c.get("edit"))
+            bad = bool(col.failures)
+        print("property violated on this input" if bad else "property holds on this input")
+        return 1 if bad else 0
+    if op == "surrogate-pair":
+        a, b = from_json(c["a"]), from_json(c["b"])
+        ra, rb = impl_vplay(to_ruamel(a)), impl_vplay(to_ruamel(b))
+        print("a: %s %s\nb: %s %s" % (ra[0], binascii.hexlify(ra[1] or b"").decode()[:16], rb[0], binascii.hexlify(rb[1] or b"").decode()[:16]))
+        bad = ra[0] == "ok" and rb[0] == "ok" and ra[1] == rb[1] and canon(a) != canon(b)
+        print("property violated on this input" if bad else "property holds on this input")
+        return 1 if bad else 0
     if op == "history":
         ref = RefServer()          # before any call into the verifier in this process
         try:
